@@ -391,4 +391,5 @@ func runC19() {
 	over = append(over, 0x51, 0x51)
 	emit19((&interpgen.Program{Unlock: []byte{}, Lock: over, Flags: 0, Kind: "lifecycle-stack-limit"}).Fix())
 	c.Stats.Rule = "the interpreter-equivalence programs (opcode x operand matrix sample, grammar-generated programs, P2SH pairs, script-boundary and flow-control programs, both eras, sampled flags), each run six ways: no debugger, a recording debugger, the library's own debug.NewDebugger with a logging handler on every hook (two on some), two debuggers that overwrite every field and every stack byte of every State they are handed (XOR 0xff, and +1 which is not self-inverse) and one that changes the push data of the parsed opcodes in State.Scripts; verdict AND error text, callback sequence and all snapshots must coincide; the complete callback sequence (stack callbacks included) is checked against the lifecycle automaton in Go and again inside Coq (model/DebugStack.v), and its lifecycle part is compared with the model's trace in Coq. distinct = distinct program; one program per shape of the lifecycle grammar and one reaching the combined stack limit exactly and exceeding it by one are added. non-trivial = at least one step completed"
+	runC19Fanout() // c19_fanout.go: the library's own debugger object, tie of model/DebugFanout.v
 }
